@@ -544,7 +544,7 @@ func main() {
 	}
 	ev.Main("C23", "model_checking", func(c *ev.Ctx) {
 		c.Rule("differential enumeration per key × form{plain,precomputed,swapped} × operation × parameter alphabet; " +
-			"keys: fixtures 512..2048 bits (thorough: ..4096), 1025 bits, 3 primes, exponents 3, 2^31-1, 2^32+15, 256 bits; a 5-prime 2048-bit fixture (lite unit set; 4- and 5-prime keys full in thorough); harness-built deterministic keys of 1023 and 1030 bits (lite) and 1018..1021 bits (PSS units only: 2..7 masked top bits of EM between them), exponents just above 2^31 (lite; just below 2^32 in thorough) and longer than the modulus (2^1029+.., micro: no bit/byte mutation menu in quick); keys from zcrypto's own generator (2 and 3 primes; 4 and 5 in thorough); " +
+			"keys: fixtures 512..2048 bits (thorough: ..4096), 1025 bits, 3 primes, exponents 3, 2^31-1, 2^32+15, 256 bits; a 5-prime 2048-bit fixture (lite unit set; 4- and 5-prime keys full in thorough); harness-built deterministic keys of 1023 and 1030 bits (lite) and 1018..1021 bits (PSS units only: 2..7 masked top bits of EM between them), exponents just above 2^31 (lite; just below 2^32 in thorough) and longer than the modulus (2^1029+.., micro: no bit/byte mutation menu in quick), and at the machine-word boundaries 2^63, 2^64-13, 2^64+1 (micro); keys from zcrypto's own generator (2 and 3 primes; 4 and 5 in thorough); " +
 			"signatures/ciphertexts: identity + every single-bit flip (keys <= 2048 bits; all keys in thorough) or byte substitutions {00,ff,^b} at every offset + {x+N, N-x, 0, 1, N-1, N} + length {prepend/append 00, drop first/last, empty}; " +
 			"PKCS#1 v1.5 signatures under every crypto.Hash 0..19 (no waiver: what the oracle signs zcrypto must sign and verify); OAEP with SHA-1/SHA-256 × labels {none, x} and SHA-256/384/512 × a 32-octet label; PSS salt modes, wrong-length digests, textbook salts; " +
 			"encoded-message deviations (one field off the valid EM) for PKCS#1 v1.5 enc/sig, OAEP, PSS (incl. 01||EM for 8k+1-bit moduli, first of 256 salts with EM < N); raw private/public operation on {0..3, N-1..N-4, (N±1)/2, primes and their multiples, every 2^i, every 2^i-1, 64 fixed vectors, out-of-range values}; " +
@@ -646,6 +646,11 @@ func main() {
 		add(expKey("rsa1024e32lo", "rsa1024", new(big.Int).Lsh(big.NewInt(1), 31)), "lite")
 		add(expKey("rsa1024e32hi", "rsa1024", new(big.Int).Sub(new(big.Int).Lsh(big.NewInt(1), 32), big.NewInt(13))), "thorough-only")
 		add(expKey("rsa1024e1030", "rsa1024", new(big.Int).Lsh(big.NewInt(1), 1029)), "micro")
+		// machine-word boundaries of the exponent: first usable odd E >= 2^63 (bit 63 set: negative as int64), >= 2^64-13
+		// (all-ones low word) and >= 2^64+1 (low word 1)
+		add(expKey("rsa1024e64lo", "rsa1024", new(big.Int).Lsh(big.NewInt(1), 63)), "micro")
+		add(expKey("rsa1024e64hi", "rsa1024", new(big.Int).Sub(new(big.Int).Lsh(big.NewInt(1), 64), big.NewInt(13))), "micro")
+		add(expKey("rsa1024e65", "rsa1024", new(big.Int).Add(new(big.Int).Lsh(big.NewInt(1), 64), big.NewInt(1))), "micro")
 
 		// keys produced by zcrypto's own generator (deterministic byte stream; the generator
 		// itself may consume one extra byte at its own discretion, the key is recorded in every witness)
